@@ -1,6 +1,7 @@
 import Lean.Data.Json
 import GsModel.Diff.Json
 import GsModel.Diff.Total
+import GsModel.Diff.Terminates
 import GsModel.Ops.Regen
 import GsModel.Text.Escape
 import GsModel.Text.Tags
@@ -27,7 +28,9 @@ def handleDiff (j : Json) : Json :=
   let r0 := Diff.analyse { rev := 0 } fuel a b
   Json.mkObj (Diff.J.outcomeJson r0 ++ [("alts", Json.arr #[run 1, run 2, run 3, run 4, run 5]),
     -- the validity hypothesis of `total_no_panic`, evaluated beyond the nesting depth of any generated document
-    ("va", Json.bool (a.validB 40)), ("vb", Json.bool (b.validB 40))])
+    ("va", Json.bool (a.validB 40)), ("vb", Json.bool (b.validB 40)),
+    -- the depth hypothesis of `terminates_acyclic` (false for recursive definitions)
+    ("fa", Json.bool (a.fitsB 24)), ("fb", Json.bool (b.fitsB 24))])
 
 def handleExecute (j : Json) : Json :=
   let ds := (Diff.J.arr j "diffs").filterMap Diff.J.entry
